@@ -15,6 +15,9 @@ def run(rep, fb, tier):
 EXTRAS = [
     lambda rep, fb, tier: st.rule_family(rep, fb),
     lambda rep, fb, tier: st.rule_clone(rep, fb),
+    lambda rep, fb, tier: st.rule_orderdep(rep, fb),
     lambda rep, fb, tier: __import__("vf.rules.canon", fromlist=["x"]).rule_canon(rep, fb),
     lambda rep, fb, tier: __import__("vf.rules.guards", fromlist=["x"]).rule_division(rep, fb),
+    lambda rep, fb, tier: __import__("vf.rules.methodrules", fromlist=["x"]).rule_index_domain(rep, fb),
+    lambda rep, fb, tier: __import__("vf.rules.methodrules", fromlist=["x"]).rule_index_content(rep, fb),
 ]
